@@ -8,7 +8,9 @@ test functions of the space the initial configuration treats exactly:
     with modified_basis=True: (multi)linear functions for the integral, interior hats for the interpolant;
   * extend-split (version 0) and the cell scheme (lmin = lmax): all multilinear monomials, products of affine functions and
     sums of them; family `esmulti`: split_single_dim=True with prescribed benefits for ALL areas in every round, so that one
-    refine() call contains multi-dimension splits of old areas followed by lmax-raising extends of newer ones.
+    refine() call contains multi-dimension splits of old areas followed by lmax-raising extends of newer ones; family
+    `esgrid`: the other local grid families that are exact for multilinear functions (LagrangeGrid p=1,2,3,
+    ClenshawCurtisGrid, GaussLegendreGrid, SimpsonGrid; high-order ones only with split_single_dim=False), oracle only.
 Refinement decisions are scripted (own ErrorCalculator returning pseudo-random errors keyed by the interval/area and
 the round) or come from the library's own estimators with a peaky function, so that histories are diverse.
 After each stop:
@@ -625,6 +627,47 @@ def gen_esmulti_case(ctx, thorough):
             "sym": lmin if r.random() < 0.7 else None}
 
 
+ES_GRIDS = ["trapezoid", "lagrange1", "lagrange2", "lagrange3", "clenshawcurtis", "gausslegendre", "simpson"]
+
+
+def make_local_grid(kind, a, b):
+    """local grid families whose rules are exact for multilinear functions (assumed per family for all but the
+    trapezoidal one, which is modelled and proved)"""
+    from sparseSpACE import Grid as G
+    if kind == "trapezoid":
+        return G.TrapezoidalGrid(a, b, boundary=True)
+    if kind.startswith("lagrange"):
+        return G.LagrangeGrid(a, b, boundary=True, p=int(kind[-1]))
+    if kind == "clenshawcurtis":
+        return G.ClenshawCurtisGrid(a, b, boundary=True)
+    if kind == "gausslegendre":
+        return G.GaussLegendreGrid(a, b)
+    if kind == "simpson":
+        return G.SimpsonGrid(a, b, boundary=True)
+    raise ValueError(kind)
+
+
+HIGH_ORDER_GRIDS = ("lagrange2", "lagrange3", "clenshawcurtis", "gausslegendre")
+
+
+def gen_esgrid_case(ctx, thorough):
+    """extend-split on the other local grid families that are exact for multilinear functions.  High-order families
+    (is_high_order_grid(): Lagrange p >= 2, Clenshaw-Curtis, Gauss-Legendre) switch the error estimation to the parent
+    estimation; with split_single_dim=True they trip the code's own assert in get_sum_sibling_value (2 or 2^dim children
+    expected) on the unchanged tree -- that combination is left out"""
+    r = ctx.rng
+    case = gen_es_case(ctx, thorough)
+    g = r.choice(ES_GRIDS[1:])
+    case["family"] = "grid"
+    case["grid"] = g
+    case["automatic_extend_split"] = r.random() < 0.6
+    if g in HIGH_ORDER_GRIDS:
+        case["split_single_dim"] = False
+    if g in ("lagrange3", "gausslegendre", "clenshawcurtis") and case["dim"] == 3:
+        case["lmin"], case["lmax"] = 1, 2
+    return case
+
+
 def run_es(ctx, drv, case):
     from sparseSpACE.Grid import TrapezoidalGrid
     from sparseSpACE.GridOperation import Integration
@@ -633,8 +676,10 @@ def run_es(ctx, drv, case):
     dim, lmin, lmax = case["dim"], case["lmin"], case["lmax"]
     dom = [tuple(x) for x in case["dom"]]
     rng = random.Random(case["seed"])
+    gkind = case.get("grid", "trapezoid")
     tags = {"strategy": "es", "version": case["version"], "automatic_extend_split": case["automatic_extend_split"],
-            "split_single_dim": case["split_single_dim"], "before_extend": case["before_extend"], "estimator": case["estimator"]}
+            "split_single_dim": case["split_single_dim"], "before_extend": case["before_extend"], "estimator": case["estimator"],
+            "grid": gkind}
     rec = Recorder(ctx, case, tags)
     comps = gen_multilinear_comps(rng, dim, 3, 2)
     f = make_function_class()(dom, comps, [dom[d][0] + (dom[d][1] - dom[d][0]) * case["peak"][d] for d in range(dim)], case["sharp"],
@@ -650,7 +695,7 @@ def run_es(ctx, drv, case):
     snapshots = []          # (result at the moment a stop would return it, refinement state) before every refine()
     act_of = {}             # id(area) -> active (coarsened level, coefficient) list at the time of its evaluation
     with quiet():
-        grid = TrapezoidalGrid(a, b, boundary=True)
+        grid = make_local_grid(case.get("grid", "trapezoid"), a, b)
         op = Integration(f, grid=grid, dim=dim, log_level=50, print_level=50)
         Scripted = make_scripted_class()
         if case["estimator"] == "scripted":
@@ -716,6 +761,16 @@ def run_es(ctx, drv, case):
     for stop, (result, areas) in enumerate(snapshots):
         ctx.count("es_stops")
         oracle_integrals(rec, "es-exact", stop, result, comps, dom)
+        # local coefficient sums (what the theorem needs)
+        sums = [sum(c for _, c in act) for (_, _, act, _) in areas]
+        if any(x != 1 for x in sums):
+            ctx.count("es_local_coefficient_sum_not_1")
+        if gkind != "trapezoid":
+            # the model's local rule is the trapezoidal one; for the other families exactness of the local rule for
+            # multilinear functions is an assumption (oracle only)
+            if not rec.ok:
+                break
+            continue
         # model: areas with their active lists
         drv.ask("newstate")
         for (s, e, act, A) in areas:
@@ -729,14 +784,11 @@ def run_es(ctx, drv, case):
             if m is None or not cmp_float_frac(result[k + 1], m):
                 rec.corr("es/combined-integral", {"stop": stop, "terms": terms_str(terms), "impl": float(result[k + 1]), "model": frac_str(m) if m is not None else err})
                 break
-        # local coefficient sums (what the theorem needs)
-        sums = [sum(c for _, c in act) for (_, _, act, _) in areas]
-        if any(x != 1 for x in sums):
-            ctx.count("es_local_coefficient_sum_not_1")
         if not rec.ok:
             break
-    # interpolation on the final state
-    if rec.ok:
+    # interpolation on the final state (d-linear interpolation needs the boundary points of the local grids; the basis
+    # grids bring their own interpolation)
+    if rec.ok and (gkind == "trapezoid" or gkind.startswith("lagrange")):
         pts = rand_points(rng, dom, 6)
         try:
             with quiet():
@@ -747,6 +799,7 @@ def run_es(ctx, drv, case):
             rec.violation("es-exception", "exception", {"exception": repr(e)[:300], "where": "__call__"}, {"exception": type(e).__name__})
     ctx.count("es_auto%d_single%d_before%d" % (case["automatic_extend_split"], case["split_single_dim"], case["before_extend"]))
     ctx.count("es_est_" + case["estimator"])
+    ctx.count("es_grid_" + gkind)
     return rec
 
 
@@ -948,8 +1001,8 @@ def run_unit_1d(ctx, drv, n):
 
 
 # ------------------------------------------------------------------------------------------------ entry points
-RUNNERS = {"dw": run_dw, "es": run_es, "cell": run_cell, "escont": run_escont, "esmulti": run_es}
-GENERATORS = {"dw": gen_dw_case, "es": gen_es_case, "cell": gen_cell_case, "escont": gen_escont_case, "esmulti": gen_esmulti_case}
+RUNNERS = {"dw": run_dw, "es": run_es, "cell": run_cell, "escont": run_escont, "esmulti": run_es, "esgrid": run_es}
+GENERATORS = {"dw": gen_dw_case, "es": gen_es_case, "cell": gen_cell_case, "escont": gen_escont_case, "esmulti": gen_esmulti_case, "esgrid": gen_esgrid_case}
 
 
 def run(ctx):
@@ -984,7 +1037,7 @@ def run(ctx):
             import traceback
             ctx.corr_break("C04/corpus-case", {"file": os.path.basename(path)}, traceback.format_exc()[-1500:])
     budget = 85 if not thorough else 600
-    mix = ["dw", "es", "dw", "cell", "esmulti", "dw", "es", "dw", "dw", "cell", "es", "dw", "escont", "esmulti"]
+    mix = ["dw", "es", "dw", "esgrid", "cell", "esmulti", "dw", "es", "dw", "dw", "cell", "esgrid", "es", "dw", "escont", "esmulti"]
     k = 0
     while ctx.time_left(budget) > 0 and k < (400 if not thorough else 6000):
         strat = mix[k % len(mix)]
